@@ -16,7 +16,7 @@ META = {
     "bounds": {
         "quick": "every C03-quick structure of every defined identity; cut lengths: all if <= 24 cuts, else the last 8 bytes plus a seeded "
                  "sample of 16 cuts; truncated payload bytes all symbolic; free mode: every defined identity, payload lengths 2..12, counters 0..2 + one beyond",
-        "thorough": "C03-thorough structures, every cut length if <= 96 cuts else the last 24 bytes plus 72 sampled cuts; free mode lengths 2..40"},
+        "thorough": "C03-thorough structures (MSM: symbolic mask positions up to 3 cells, larger shapes with seeded positions), every cut length if <= 96 cuts else the last 24 bytes plus 72 sampled cuts (MSM: 48 / 16 + 32); free mode lengths 2..40"},
     "outside": "structures outside the C03 bound; cuts inside the identity header (C04)",
     "assumptions": ["structure fields that still lie inside the truncated payload keep the values of the complete message"],
 }
@@ -32,9 +32,9 @@ def jobs(tier, seed):
     return out
 
 
-def cuts_for(need, minlen, tier, rnd):
+def cuts_for(need, minlen, tier, rnd, msm=False):
     allc = list(range(need - 1, minlen - 1, -1))
-    cap, tailn, samp = (24, 8, 16) if tier == 'quick' else (96, 24, 72)
+    cap, tailn, samp = (24, 8, 16) if tier == 'quick' else (48, 16, 32) if msm else (96, 24, 72)
     if len(allc) <= cap:
         return allc
     last = allc[:tailn]
@@ -47,8 +47,8 @@ def run_cut(ident, tier, seed, res):
     rnd = random.Random(seed * 1000003 + hash(ident) % 65536)
     minlen = 3 if ident.startswith("4076") else 2
     for st in structs.structures(ident, tier, seed):
-        if tier == 'quick' and st.get('nsat', 0) >= 2 and st.get('maskmode') not in ('value', 'high'):
-            continue      # quick: symbolic mask positions only up to 1x1 for truncation (positions do not move field boundaries)
+        if st.get('maskmode') not in ('value', 'high') and (st.get('nsat', 0) >= 2 if tier == 'quick' else st.get('nsat', 0) * st.get('nsig', 0) >= 4):
+            continue      # symbolic mask positions only up to 1x1 (quick) / 3 cells (thorough) for truncation: positions do not move field boundaries
         try:
             d0 = msgdrv.Directed(ident, structs.chooser(st), spare=0)
         except ol.BadDefinition:
@@ -56,7 +56,7 @@ def run_cut(ident, tier, seed, res):
         if not structs.fits(d0.total):
             continue
         res.count('structures')
-        for cut in cuts_for(d0.need, minlen, tier, rnd):
+        for cut in cuts_for(d0.need, minlen, tier, rnd, msm='nsat' in st):
             d = msgdrv.Directed(ident, structs.chooser(st), length=cut)
             eng = sym.Engine(max_paths=64, conc_limit=8)
 
